@@ -84,13 +84,21 @@ def goDefects (rq : Request) (subset : String) : List String :=
     (if subset == "go-http" || subset == "both" then httpDefects rq f else []) ++
     (if subset == "go-client" || subset == "both" then clientDefects rq f else [])
 
-/-- ts-server: a GET/DELETE route with both path variables and query parameters declares
-`const url` twice. -/
-def tsServerDefects (rq : Request) : List String :=
+/-- routes of the ts-server template that parse the URL twice: a GET/DELETE route with both path
+variables and query parameters. Before `fix: ts-server: do not declare const url twice …` each
+parse declared `const url` and the module did not load. -/
+def tsServerTwoUrlUses (rq : Request) : List Str :=
   (generated rq).flatMap fun f => f.services.flatMap fun s => s.methods.flatMap fun m =>
     let input := (rq.findMessage m.input).getD default
     let vars := if m.hasConfig then extractPathParams m.path else []
     let v := if m.hasConfig then verbOfNum m.verbNum else "POST".toList
-    if isQueryVerb v && vars != [] && input.fields.any (·.query.isSome) then ["ts_server_duplicate_const_url"] else []
+    if isQueryVerb v && vars != [] && input.fields.any (·.query.isSome) then [m.name] else []
+
+/-- the defect as it was (kept as the regression model: what returns if the second declaration does). -/
+def tsServerDefectsBeforeFix (rq : Request) : List String :=
+  (tsServerTwoUrlUses rq).map fun _ => "ts_server_duplicate_const_url"
+
+/-- ts-server load defects predicted for the current template: none. -/
+def tsServerDefects (_rq : Request) : List String := []
 
 end Sebuf.Build
